@@ -8,13 +8,13 @@ spec/C19/MCFDGen.tla   generator: state graph of the harness commands (-dump dot
 spec/C19/FDObs.tla     P-level trace spec (verdicts), FDTrace.tla M-level trace spec (conformance; drift only)
 harness/cmd/c19drv     performs the commands on the real Monitor / detectors behind a relay it controls
 """
-import collections, concurrent.futures, json, os, random, re, shutil
+import collections, concurrent.futures, json, os, random, re, shutil, time
 import vcommon as V
 import tracegen as TG
 
-VARIANTS_QUICK = ["finished_alive", "timeout_stuck", "dialfail_stuck"]
-VARIANTS_ALL = ["finished_alive", "timeout_stuck", "dialfail_stuck", "panic_alive", "noredial", "read_inits"]
-PARTS = ["Completeness", "Accuracy", "Initialised", "ReadPure", "ReadError", "ReadSteadyFast", "ReadAbortBounded"]
+VARIANTS_QUICK = ["finished_alive", "timeout_stuck", "start_absent"]
+VARIANTS_ALL = ["finished_alive", "timeout_stuck", "dialfail_stuck", "panic_alive", "noredial", "read_inits", "start_absent"]
+PARTS = ["Completeness", "Accuracy", "Initialised", "ReadPure", "ReadError", "MonitorCrash", "ReadSteadyFast", "ReadAbortBounded"]
 
 
 # --------------------------------------------------------------------------- generator
@@ -169,6 +169,16 @@ def sim_walks(work, cfg, n, depth, seed):
     return res, walks
 
 
+def cut_timeouts(cmds, limit=4):
+    out, n = [], 0
+    for c in cmds:
+        n += c.startswith("timeout")
+        if n > limit:
+            break
+        out.append(c)
+    return out
+
+
 def mk_case(cid, cmds, rng, nd, watch, group):
     stalls = any(c.startswith("timeout") for c in cmds)
     return {"id": cid, "mode": "gated", "nd": nd, "na": 2, "watch": watch, "iv": rng.choice([4, 8, 15]),
@@ -197,7 +207,9 @@ def run(chk):
     V.copy_specs(specsrc, work)
     quick = chk.quick()
     rng = random.Random(chk.seed)
-    pool = concurrent.futures.ThreadPoolExecutor(max_workers=6)
+    pool = concurrent.futures.ThreadPoolExecutor(max_workers=10)
+    phases = {}
+    t0 = time.time()
 
     def tlc_job(tag, module, cfg, **kw):
         w = os.path.join(chk.tmp, "tlc-" + tag)
@@ -208,14 +220,13 @@ def run(chk):
         w = os.path.join(chk.tmp, "tlc-broken-" + variant)
         V.copy_specs(work, w)
         with open(os.path.join(w, "MCFDBroken.cfg"), "w") as f:
-            f.write(open(os.path.join(w, "MCFDBroken.cfg.in")).read().replace("VARIANT", variant))
+            f.write(open(os.path.join(w, "MCFDBroken.cfg.in")).read().replace("@V@", variant))
         return V.tlc(w, "MCFD", cfg="MCFDBroken.cfg", deadlock=False, workers=2, timeout=900)
 
     # 1. design level (runs while the driver works)
     design = {}
     if not chk.replay:
         design["MCFD1"] = pool.submit(tlc_job, "mcfd1", "MCFD", "MCFD1.cfg", workers=4, timeout=1200)
-        design["witness"] = pool.submit(tlc_job, "witness", "MCFD", "MCFDWitness.cfg", workers=2, timeout=900, extra=["-continue"])
         if not quick:
             design["MCFD"] = pool.submit(tlc_job, "mcfd", "MCFD", "MCFD.cfg", workers=8, timeout=2400, heap="6g")
             design["MCFD2a"] = pool.submit(tlc_job, "mcfd2a", "MCFD", "MCFD2a.cfg", workers=6, timeout=2400, heap="6g")
@@ -228,10 +239,12 @@ def run(chk):
         cs = dict(rp["case"]["spec"])
         cases = [cs]
     else:
-        gens = {"gen1": pool.submit(tlc_job, "gen1", "MCFDGen", "MCFDGen1.cfg", workers=1, timeout=900, dump="gen.dot"),
-                "gen": pool.submit(tlc_job, "gen", "MCFDGen", "MCFDGen.cfg", workers=1, timeout=900, dump="gen.dot")}
+        gens = {"gen1": pool.submit(tlc_job, "gen1", "MCFDGen", "MCFDGen1.cfg", workers=1, timeout=900, dump="gen.dot")}
         sims = {}
-        if not quick:
+        if quick:
+            sims["1"] = pool.submit(sim_walks, work, "MCFDGen.cfg", 40, 45, chk.seed)
+        else:
+            gens["gen"] = pool.submit(tlc_job, "gen", "MCFDGen", "MCFDGen.cfg", workers=1, timeout=1500, dump="gen.dot")
             for g in ("2a", "2b"):
                 sims[g] = pool.submit(sim_walks, work, "MCFDGen%s.cfg" % g, 150, 50, chk.seed)
         walks = []
@@ -243,25 +256,17 @@ def run(chk):
                 raise V.Inconclusive("generator TLC run %s failed: %s" % (name, res.error or res.violation or "timeout"))
             init, out = parse_dot(os.path.join(w, "gen.dot"))
             cw, nedges = cover_walks(init, out, rng)
-            if name == "gen1":
-                sel = cw                                   # full edge cover of the one-archetype graph
-                rw = random_walks(init, out, rng, 10 if quick else 60)
-            else:
-                if quick:
-                    sel = rng.sample(cw, min(len(cw), 60))     # seeded part of the cover of the two-archetype graph
-                else:
-                    sel = cw
-                rw = random_walks(init, out, rng, 30 if quick else 250)
-            graph_note[name] = {"base_states": len(out), "command_edges": nedges, "cover_walks": len(cw),
-                                "cover_walks_run": len(sel), "random_walks": len(rw)}
-            walks += [(c, 1, [1], "1") for c in sel + rw]
+            rw = random_walks(init, out, rng, (10 if quick else 60) if name == "gen1" else 250)
+            graph_note[name] = {"base_states": len(out), "command_edges": nedges, "cover_walks": len(cw), "random_walks": len(rw)}
+            walks += [(c, 1, [1], "1") for c in cw + rw]
         for g, fut in sims.items():
             res, ws = fut.result()
-            chk.add_tlc("MCFDGen%s simulation (two detectors; generator)" % g, res)
+            chk.add_tlc("MCFDGen%s simulation (generator: random behaviours of the harness commands)" % ("" if g == "1" else g), res)
             if res.error or res.timed_out:
                 raise V.Inconclusive("generator simulation %s failed: %s" % (g, res.error or "timeout"))
-            graph_note["gen" + g] = {"simulated_walks": len(ws)}
-            walks += [(c, 2, [1, 1] if g == "2a" else [1, 2], g) for c in ws]
+            ws = [cut_timeouts(c) for c in ws]
+            graph_note["sim" + g] = {"simulated_walks": len(ws)}
+            walks += [(c, 1 if g == "1" else 2, {"1": [1], "2a": [1, 1], "2b": [1, 2]}[g], g) for c in ws]
         chk.notes["generator"] = graph_note
         seen = set()
         for cmds, nd, watch, group in walks:
@@ -274,20 +279,39 @@ def run(chk):
         rng.shuffle(cases)
 
     # 3. the real code
+    phases["generate_s"] = round(time.time() - t0, 1)
+    t3 = time.time()
     drv = V.build_driver("c19drv", chk.bindir)
     cpath = os.path.join(chk.tmp, "cases.ndjson")
     with open(cpath, "w") as f:
         for c in cases:
             f.write(json.dumps(c) + "\n")
     opath = os.path.join(chk.tmp, "out.ndjson")
+    if chk.replay and cases[0].get("mode") == "closerace":
+        with open(cpath, "w") as f:
+            pass
     rc, o = V.run([drv, "-cases", cpath, "-out", opath, "-par", "10", "-watchdog", "60"], timeout=1500 if quick else 2400)
     if rc != 0:
         raise V.Inconclusive("c19drv failed rc=%s: %s" % (rc, o[-3000:]))
     lines = V.read_jsonl(opath)
     segs = V.split_cases(lines)
     byid = {c["id"]: c for c in cases}
-    if len(segs) != len(cases):
+    if len(segs) != len(cases) and not (chk.replay and cases[0].get("mode") == "closerace"):
         raise V.Inconclusive("c19drv wrote %d cases of %d" % (len(segs), len(cases)))
+    if not chk.replay or cases[0].get("mode") == "closerace":
+        # monitor shutdown while connections keep arriving (own process: the pinned tree dies of it)
+        crpath = os.path.join(chk.tmp, "closerace.ndjson")
+        rc, o = V.run([drv, "-mode", "closerace", "-out", crpath, "-rounds", "200" if quick else "1500", "-watchdog", "60"], timeout=900)
+        if rc != 0 or not os.path.exists(crpath):
+            raise V.Inconclusive("c19drv -mode closerace failed rc=%s: %s" % (rc, o[-2000:]))
+        cr = V.split_cases(V.read_jsonl(crpath))
+        byid[0] = {"id": 0, "mode": "closerace", "group": "1"}
+        if chk.replay:
+            segs, lines = cr, []
+        else:
+            segs += cr
+        lines += [ln for s in cr for ln in s]
+    phases["driver_s"] = round(time.time() - t3, 1)
     ends = collections.Counter()
     groups = collections.defaultdict(list)
     for s in segs:
@@ -306,9 +330,16 @@ def run(chk):
 
     # 4. verdicts by TLC
     chunks = 3 if quick else 8
+    t4 = time.time()
+    folds = {}
     for g, gs in sorted(groups.items()):
-        obs = V.fold_traces(work, "FDObs", "FDObs_%s.cfg" % g, gs, timeout=1500, chunks=chunks, max_rounds=8)
-        chk.states += obs["states"]; chk.transitions += obs["transitions"]; chk.traces += obs["accepted"]
+        folds[g] = (gs, pool.submit(V.fold_traces, work, "FDObs", "FDObs_%s.cfg" % g, gs, timeout=1500, chunks=chunks, max_rounds=8),
+                    pool.submit(V.fold_traces, work, "FDTrace", "FDTrace_%s.cfg" % g, gs, timeout=1500, chunks=chunks, max_rounds=8))
+    for g, (gs, fobs, fmt) in folds.items():
+        obs = fobs.result()
+        chk.states += obs["states"]; chk.transitions += obs["transitions"]
+        # abandoned cases are folded (and judged up to the point they were abandoned) but not counted as validated
+        chk.traces += max(0, obs["accepted"] - sum(1 for s in gs if s[-1].get("why") != "complete"))
         for e in obs["errors"]:
             chk.inconclusive.append("FDObs group %s: %s" % (g, e))
         for r in obs["rejected"]:
@@ -324,11 +355,17 @@ def run(chk):
             recent = [ln for ln in seg[max(1, r["line_in_seg"] - 9):r["line_in_seg"]]]
             ctx = ",".join(sorted({ln["e"] + (":" + ln.get("how", "") if ln["e"] == "end" else "") for ln in recent
                                    if ln["e"] in ("end", "netdown", "timeout", "monclose", "stall", "start")}))
+            if part == "MonitorCrash":
+                chk.violation("C19:MonitorCrash:Close-during-accept",
+                              "Monitor.Close() while connections arrive crashes the process inside the Monitor (nil listener in "
+                              "ListenAndServe): monitor shutdown takes down every archetype of the process: %s" % ev.get("what", "")[:700],
+                              {"spec": byid[seg[0]["id"]], "segment": seg, "line_in_seg": r["line_in_seg"], "tlc": r["text"]})
+                continue
             chk.violation("C19:%s:mode=%s:after=%s" % (part, seg[0]["mode"], ctx or "-"),
                           "the real detector violates %s in case %s at event %d (%s): %s" % (
                               part, seg[0]["id"], r["line_in_seg"], json.dumps(ev), r["text"]),
                           {"spec": byid[seg[0]["id"]], "segment": seg, "line_in_seg": r["line_in_seg"], "tlc": r["text"]})
-        mt = V.fold_traces(work, "FDTrace", "FDTrace_%s.cfg" % g, gs, timeout=1500, chunks=chunks, max_rounds=8)
+        mt = fmt.result()
         chk.states += mt["states"]; chk.transitions += mt["transitions"]
         chk.notes["m_level_accepted_group_" + g] = mt["accepted"]
         for r in mt["rejected"][:20]:
@@ -337,18 +374,13 @@ def run(chk):
             chk.drift.append({"spec": "FD.tla", "case": seg[0]["id"], "event": r["line_in_seg"], "line": ev, "text": r["text"]})
         for e in mt["errors"]:
             chk.drift.append({"spec": "FD.tla", "error": e})
+    phases["fold_s"] = round(time.time() - t4, 1)
 
     # 5. design-level results
     if not chk.replay:
         for name, fut in design.items():
             res, _ = fut.result()
-            if name == "witness":
-                wit = [n for n in ("NeverMustTrue", "NeverMustFalse") if ("Invariant %s is violated" % n) in res.out]
-                chk.tlc_jobs.append(res.summary("MCFDWitness (expected: both Never* violated = the obligations are reachable)"))
-                chk.notes["obligations_reachable"] = wit
-                if len(wit) != 2:
-                    chk.inconclusive.append("vacuity: obligations not reachable in the model: %s" % wit)
-            else:
+            if True:
                 chk.add_tlc("%s exhaustive (TypeOK, Completeness, Completeness2, Accuracy, Initialised, Recovery, ReadPure)" % name, res)
         chk.exhaustive = all(j["ok"] for j in chk.tlc_jobs if j["job"].startswith("MCFD"))
         rej = {}
@@ -360,6 +392,8 @@ def run(chk):
                 chk.inconclusive.append("vacuity: the broken design %s is not rejected by the invariants" % v)
         chk.notes["broken_designs_rejected"] = rej
     pool.shutdown(wait=False)
+    phases["total_s"] = round(time.time() - t0, 1)
+    chk.notes["phases"] = phases
 
     gated = [s for s in segs if s[0]["mode"] == "gated" and s[-1].get("why") == "complete"]
     for s in gated[:3] + [x for x in segs if x[0]["mode"] == "direct"][:1]:
